@@ -2,9 +2,9 @@
    (forall state satisfying a proved invariant, forall event) and about every trace from vsock_new. *)
 From Utp Require Import Base.Prelude Wire.SeqNr Wire.Header Rtt.Rtte Mtu.SegSizes Rx.Rx Rx.Rx_Proofs
   Tx.Ring Tx.Segments Conn.Recovery Conn.Msg Conn.VSockRec Conn.VSock Conn.VSockRun Conn.VObs
-  Conn.C10_Pred Conn.C02_Pred Conn.VSock_Lemmas Conn.VSock_LemmasStep Conn.VSock_LemmasReach
-  Conn.VSock_LemmasPark Tx.Segments_ProofsOut Conn.VSock_LemmasTimers Conn.VSock_LemmasPipe
-  Conn.VSock_Inv Conn.C10_Proofs.
+  Conn.C10_Pred Conn.C02_Pred Conn.VSock_Inv Conn.C10_Proofs Conn.C02_Proofs
+  Conn.VSock_Lemmas Conn.VSock_LemmasStep Conn.VSock_LemmasReach
+  Conn.VSock_LemmasPark Tx.Segments_ProofsOut Conn.VSock_LemmasTimers Conn.VSock_LemmasPipe.
 
 Section WithCC.
 Context {CC : Type} (cci : cc_iface CC).
@@ -40,6 +40,59 @@ Proof.
   - intros s o Hp. apply pk_vstep; exact Hp.
   - eapply pk_vsock_new; exact H0.
 Qed.
+
+(* ================================================================== application events *)
+(* the component theorems of C02_Proofs.v, for every event of the alphabet *)
+Theorem c02_write_wakes_step : forall cfg (s : vsock) o, c02_write_wakes cfg (fstep_of cci s o) = true.
+Proof.
+  intros cfg s o. destruct o; try (unfold c02_write_wakes; rewrite fstep_of_event; reflexivity).
+  exact (C02_Proofs.write_wakes_ok cci cfg s buf).
+Qed.
+
+Theorem c02_drop_writer_wakes_step : forall cfg (s : vsock) o,
+  c02_drop_writer_wakes cfg (fstep_of cci s o) = true.
+Proof.
+  intros cfg s o. destruct o; try (unfold c02_drop_writer_wakes; rewrite fstep_of_event; reflexivity).
+  exact (C02_Proofs.drop_writer_wakes_ok cci cfg s).
+Qed.
+
+Theorem c02_shutdown_wakes_step : forall cfg (s : vsock) o,
+  c02_shutdown_wakes cfg (fstep_of cci s o) = true.
+Proof.
+  intros cfg s o.
+  destruct o; try (unfold c02_shutdown_wakes, shutdown_idle_guard; rewrite fstep_of_event; reflexivity).
+  exact (C02_Proofs.shutdown_wakes_ok cci cfg s).
+Qed.
+
+Theorem c02_read_wakes_step : forall cfg (s : vsock) o, c02_read_wakes cfg (fstep_of cci s o) = true.
+Proof.
+  intros cfg s o. destruct o; try (unfold c02_read_wakes; rewrite fstep_of_event; reflexivity).
+  - apply (C02_Proofs.read_wakes_ok cci cfg s (VoRead n)). left. eexists; reflexivity.
+  - apply (C02_Proofs.read_wakes_ok cci cfg s VoDropReader). right. reflexivity.
+Qed.
+
+Lemma forallb_ftrace_all : forall (P : fstep -> bool),
+  (forall (s : vsock) o, P (fstep_of cci s o) = true) ->
+  forall ops (s : vsock), forallb P (ftrace cci s ops) = true.
+Proof.
+  intros P H ops s. apply (ftrace_forallb cci (fun _ => True)); auto.
+Qed.
+
+Theorem c02_write_wakes_trace : forall cfg ops (s : vsock),
+  forallb (c02_write_wakes cfg) (ftrace cci s ops) = true.
+Proof. intros cfg. apply forallb_ftrace_all. apply c02_write_wakes_step. Qed.
+
+Theorem c02_drop_writer_wakes_trace : forall cfg ops (s : vsock),
+  forallb (c02_drop_writer_wakes cfg) (ftrace cci s ops) = true.
+Proof. intros cfg. apply forallb_ftrace_all. apply c02_drop_writer_wakes_step. Qed.
+
+Theorem c02_shutdown_wakes_trace : forall cfg ops (s : vsock),
+  forallb (c02_shutdown_wakes cfg) (ftrace cci s ops) = true.
+Proof. intros cfg. apply forallb_ftrace_all. apply c02_shutdown_wakes_step. Qed.
+
+Theorem c02_read_wakes_trace : forall cfg ops (s : vsock),
+  forallb (c02_read_wakes cfg) (ftrace cci s ops) = true.
+Proof. intros cfg. apply forallb_ftrace_all. apply c02_read_wakes_step. Qed.
 
 (* ================================================================== c02_rto_armed *)
 (* the two disjuncts of [outstanding] *)
